@@ -111,3 +111,15 @@ TEXTS = {
     ('C19', 'internal:KeyError'): {'site': 'XSDAttribute.type_: the hard-coded xml:space declaration has no type attribute',
         'what': 'KeyError when xml:space is assigned'},
 }
+
+PARSER_ATTR = 'parser._et_xml_to_music_xml applies attributes with setattr(): namespaced keys arrive as {uri}local and are rejected; `name` collides with the read-only Python property; link-attributes / xs:anyURI attributes cannot be assigned at all'
+TEXTS.update({
+    ('C09', 'valid-file-rejected'): {'site': PARSER_ATTR + '; children go through the same matcher as the builder API (' + CHOICE + ')',
+        'what': 'schema-valid files (validated with xmllint during development) are rejected: any xml:lang / xml:space / xlink:* attribute, name=..., source=..., elements using link-attributes, several harmony chords, some part-list / lyric arrangements'},
+    ('C09', 'order-altered'): {'site': CHOICE + ' (first-fit grouping of same-named children in repeated sequences)',
+        'what': 'repeated groups are regrouped on the way through the parser: score-part midi-device / midi-instrument pairs come out in a different order'},
+    ('C09', 'tail-dropped'): {'site': 'parser._et_xml_to_music_xml reads node.text only',
+        'what': 'non-blank tail text (character data between child elements) of the input is silently dropped'},
+    ('C09', 'text-dropped'): {'site': 'parser._et_xml_to_music_xml / complex types without simple content accept any value but the text is stripped',
+        'what': 'character data on an element is dropped'},
+})
